@@ -25,7 +25,7 @@ BASES = ["StandardNormal", "Normal", "StudentT", "Uniform", "CondBase"]
 
 def bounds(tier):
     return {"bases": BASES, "expressions": "quick: one per (combinator kind, option, child class) at depth<=1; thorough: all at depth<=2",
-            "factories": "8 configs x invert T/F x cond None/2", "levels": [0, 1], "keys": 2, "nested": "Transformed(Transformed(base,b1),b2) for 12 pairs + merge_transforms",
+            "factories": "8 configs x invert T/F x cond None/2", "levels": [0, 1], "keys": 2, "nested": "three nesting levels Transformed(Transformed(Transformed(base,b1),b2),b3) for 12 triples + merge_transforms",
             "exhaustive_within_bounds": True}
 
 
@@ -232,9 +232,18 @@ def run_case(case):
             except Exception as e:
                 add(f"{tag}|construct|{type(e).__name__}", f"{tag}: {type(e).__name__}: {str(e)[:200]}")
                 continue
+            # three nesting levels with non-commuting maps (the order of the flattened chain matters)
+            a3 = reps[(i * 7 + 3) % len(reps)]
+            if g.info(a3).cond_shape is None or nested.cond_shape is None or g.info(a3).cond_shape == nested.cond_shape:
+                try:
+                    nested = D.Transformed(nested, g.build(a3, 3, level, seed))
+                    merged = nested.merge_transforms()
+                    tag = f"nested:{a['k']},{b_['k']},{a3['k']}"
+                except Exception as e:
+                    add(f"{tag}|construct3|{type(e).__name__}", f"{tag}: {type(e).__name__}: {str(e)[:200]}")
             cs = nested.cond_shape
             cond = None if cs is None else jnp.asarray([0.3, -0.8])
-            rt = 1e-3 if (g.info(a).num_inv or g.info(b_).num_inv) else 1e-9
+            rt = 1e-3 if (g.info(a).num_inv or g.info(b_).num_inv or g.info(a3).num_inv) else 1e-9
             tr += judge(nested, True, True, rt, add, tag, keys, [np.asarray([0.2, -0.5])], cond, counters)
             if isinstance(merged.base_dist, D.AbstractTransformed) and not isinstance(base, D.AbstractTransformed):
                 add(f"{tag}|merge-not-flat", f"{tag}: merge_transforms left a nested AbstractTransformed base")
